@@ -158,7 +158,9 @@ def gen_history(seed, idx, tier, only_step_faults=False):
             new = gen.source_set(fresh, 1, dirs=dirs, small=p.fmt in gen.BITMAP)[0]
             if new[0] in p.sources or new[2] in p.cps.values() or os.path.basename(new[0]) in {os.path.basename(s) for s in srcs}:
                 return None
+            back = False
             if r.random() < 0.4 and p.removed:
+                back = True
                 path = p.removed.pop()  # bring a removed name back
                 if path in p.sources:
                     return None
@@ -170,7 +172,7 @@ def gen_history(seed, idx, tier, only_step_faults=False):
                 path = new[0]
                 p.sources[path], p.cps[path] = new[1], new[2]
             ops.append({"op": "write", "path": path, "content": p.sources[path]})
-            return "add"
+            return "add-back" if back else "add"
         if k == "move_dir":
             # same base name, other directory (optionally with new content): every intermediate keeps its path
             s_ = r.choice(srcs)
@@ -245,10 +247,10 @@ def gen_history(seed, idx, tier, only_step_faults=False):
             v = r.choice(gen.OPTION_VALUES[name])
             if name == "descender" and False:
                 return None
-            if p.opts.get(name) == v and r.random() < 0.5:
-                p.opts.pop(name)  # changed and changed back / dropped -> default
-            else:
-                p.opts[name] = v
+            if name in p.opts and r.random() < 0.35:
+                p.opts.pop(name)  # an option that was given is dropped again -> documented default
+                return "option-dropped:" + name
+            p.opts[name] = v
             return "option:" + name
         if k == "delivery":
             p.delivery = r.choice(["flags", "toml", "both"])
@@ -295,6 +297,69 @@ def gen_history(seed, idx, tier, only_step_faults=False):
            "readdir_seed": H(seed, "c09", idx, "readdir") % (1 << 31), "ops": ops}
     return {"id": cid, "jobs": [job], "meta": {"font": p.font_name(), "kinds": kinds, "fmt": p.fmt,
                                                "backdate": backdate, "sweep": False}}
+
+
+def gen_revert_pattern(seed, idx):
+    """build; one edit; an invocation in which a step touched by the edit fails after (partly) writing; the edit is
+    undone; final.  The state ninja's log cannot describe (KF-C09-failed-output-trusted) is reached on purpose."""
+    r = gen.rng(seed, "c09rv", idx)
+    rs = gen.rng(seed, "c09rv", idx, "sched")
+    fmt = gen.pick_format(r)
+    small = fmt in gen.BITMAP
+    items = gen.source_set(gen.rng(seed, "c09rv", idx, "names"), r.randint(2, 4), small=small)
+    srcs = {p_: c for p_, c, _ in items}
+    opts = {"color_format": fmt, "output_file": "Font" + gen.ext_for(fmt)}
+    if small:
+        opts["bitmap_resolution"] = 24
+    ops = [{"op": "write", "path": p_, "content": c} for p_, c in sorted(srcs.items())]
+
+    def inv(label, srcs_, opts_, plan=None, final=False):
+        op = {"op": "invoke", "cwd": ".", "argv": gen.flag_args(opts_) + sorted(srcs_), "build_dir": "build", "label": label, "sched": gen.sched(rs)}
+        if plan:
+            op.update(plan)
+        if final:
+            op["final"] = True
+        ops.append(op)
+
+    inv("h0", srcs, opts)
+    edit = r.choice(["modify", "add", "remove", "option"])
+    srcs2, opts2 = dict(srcs), dict(opts)
+    undo = []
+    if edit == "remove" and len(srcs) < 2:
+        edit = "modify"
+    if edit == "modify":
+        s_ = r.choice(sorted(srcs))
+        srcs2[s_] = gen.content(r, small)
+        ops.append({"op": "write", "path": s_, "content": srcs2[s_]})
+        undo = [{"op": "write", "path": s_, "content": srcs[s_]}]
+        rules = ["picosvg", "write_bitmap"] if r.random() < 0.7 else ["write_font"]
+    elif edit == "add":
+        new = gen.source_set(gen.rng(seed, "c09rv", idx, "new"), 1, small=small)[0]
+        if new[0] in srcs or new[2] in [c for _, _, c in items]:
+            return None
+        srcs2[new[0]] = new[1]
+        ops.append({"op": "write", "path": new[0], "content": new[1]})
+        undo = [{"op": "remove", "path": new[0]}] if r.random() < 0.5 else []
+        rules = r.choice([["nanoemoji.write_glyphmap"], ["write_font"], ["write_fea"], ["write_combined"]])
+    elif edit == "remove":
+        s_ = r.choice(sorted(srcs))
+        del srcs2[s_]
+        rules = r.choice([["nanoemoji.write_glyphmap"], ["write_font"], ["write_combined"]])
+    else:
+        name = r.choice(["upem", "family", "keep_glyph_names", "clip_to_viewbox", "reuse_tolerance", "width"])
+        opts2[name] = r.choice(gen.OPTION_VALUES[name][1:])
+        rules = ["write_font"] if name not in ("clip_to_viewbox", "reuse_tolerance") else ["picosvg", "write_part_file"]
+    kind = r.choice(["fail_after", "fail_after", "torn_kill", "torn_efbig"])
+    inv("h1", srcs2, opts2, {"faults": [{"pick": r.randint(0, 1 << 30), "kind": kind, "frac": r.choice([0.3, 0.7, 0.95]), "n_fallback": 200, "rules": rules}]})
+    ops.extend(undo)
+    inv("final", srcs, opts, final=True)
+    ops.append({"op": "rename", "src": "build", "dst": "build.aside", "keep": True})
+    ops.append({"op": "invoke", "cwd": ".", "argv": gen.flag_args(opts) + sorted(srcs), "build_dir": "build", "label": "ref", "final": True,
+                "sched": {"j": 1, "policy": "manifest", "seed": 0, "exec_at": "finish"}})
+    cid = "c09-%d-rv%d" % (seed, idx)
+    job = {"id": cid + ".j0", "root_id": "c09/%d/rv%d" % (seed, idx), "hashseed": H(seed, "c09rv", idx, "hs") % 4294967296,
+           "clock_seed": H(seed, "c09rv", idx, "clock") % (1 << 31), "readdir_seed": H(seed, "c09rv", idx, "rd") % (1 << 31), "ops": ops}
+    return {"id": cid, "jobs": [job], "meta": {"font": opts["output_file"], "kinds": ["revert-pattern", edit], "fmt": fmt, "backdate": False, "sweep": False}}
 
 
 def gen_vf_history(seed, idx):
@@ -466,6 +531,7 @@ def gen_cases(seed, tier, scale=1.0):
     n = int((220 if tier == "quick" else 6000) * scale)
     cases = [gen_history(seed, i, tier) for i in range(n)]
     cases += [gen_vf_history(seed, i) for i in range(max(1, n // 12))]
+    cases += [c for c in (gen_revert_pattern(seed, i) for i in range(max(1, n // 15))) if c is not None]
     for c in cases:
         c["jobs"][0]["keep_trace"] = False
     if tier == "thorough":
@@ -582,9 +648,16 @@ def describe(case):
 
 
 def extra_coverage(cases, results):
-    probes = {"option_changed_back": 0, "removed_name_brought_back": 0, "histories_with_backdating": 0,
-              "final_rebuilt_nothing_but_font": 0, "torn_planned_not_fired": 0, "sweep_cases": 0, "torn_log_entry_still_matching": 0}
+    probes = {"option_dropped_again": 0, "removed_name_brought_back": 0, "reverts": 0, "moved_to_other_directory": 0, "histories_with_backdating": 0,
+              "final_rebuilt_nothing_but_font": 0, "torn_planned_not_fired": 0, "sweep_cases": 0, "failed_output_trusted_states": 0,
+              "variable_font_histories": 0}
     for c in cases:
+        ks = c["meta"]["kinds"]
+        probes["option_dropped_again"] += sum(1 for k in ks if k.startswith("option-dropped"))
+        probes["removed_name_brought_back"] += ks.count("add-back")
+        probes["reverts"] += ks.count("revert")
+        probes["moved_to_other_directory"] += ks.count("move_dir")
+        probes["variable_font_histories"] += 1 if ks[:1] == ["vf"] else 0
         if c["meta"]["backdate"]:
             probes["histories_with_backdating"] += 1
         if c["meta"]["sweep"]:
@@ -597,6 +670,8 @@ def extra_coverage(cases, results):
                 probes["final_rebuilt_nothing_but_font"] += 1
         for r in orch.invokes(results[c["id"]][0]):
             for n in r.get("ninja", []):
+                if any(a["k"] == "stale.failed_output_trusted" for a in n.get("anomalies", [])):
+                    probes["failed_output_trusted_states"] += 1
                 for s in n["steps"]:
                     if "out" in s and s.get("fault") and s["fault"]["kind"].startswith("torn") and s["status"] == ["exit", 0]:
                         probes["torn_planned_not_fired"] += 1
